@@ -82,6 +82,11 @@ func (c *Collector) Meta(ctx execution.ProduceContext, m execution.MetadataMessa
 
 // RunNode runs node with a collector wired to src's step counter; panics are converted to errors.
 func RunNode(node execution.Node, src *Source, n int) (out [][]vals.V, err error) {
+	return RunNodeCtx(node, src, n, nil)
+}
+
+// RunNodeCtx is RunNode with an outer variable context (correlated arguments).
+func RunNodeCtx(node execution.Node, src *Source, n int, varCtx *execution.VariableContext) (out [][]vals.V, err error) {
 	c := &Collector{}
 	src.OnStep = func(i int) { c.Step = i }
 	defer func() {
@@ -92,6 +97,6 @@ func RunNode(node execution.Node, src *Source, n int) (out [][]vals.V, err error
 		c.at()
 		out = c.Out
 	}()
-	err = node.Run(execution.ExecutionContext{Context: context.Background(), VariableContext: nil}, c.Produce, c.Meta)
+	err = node.Run(execution.ExecutionContext{Context: context.Background(), VariableContext: varCtx}, c.Produce, c.Meta)
 	return
 }
